@@ -13,7 +13,7 @@ From Coq Require Import String.
 From Coq Require Import List Ascii ZArith Bool.
 From CGV Require Import Base.PyBase Base.PyVal Base.NxGraph Gen.HydroGen Hydro.Hydrogens Hydro.Squash
      Hydro.SquashDefs Hydro.SquashProofs Hydro.SquashTotal Hydro.ShareProofs Hydro.QuotientDefs Hydro.QuotientProofs Hydro.BangBonds Hydro.BangGraph.
-From CGV Require Compose.CutModel Compose.CutSkeleton Compose.GraphAdj Hydro.ShareCut Hydro.ShareCutTotal Hydro.SquashTotalAny Hydro.QuotientAttrs Hydro.ShareCutExamples.
+From CGV Require Compose.Statements Compose.CutModel Compose.CutSkeleton Compose.GraphAdj Hydro.ShareCut Hydro.ShareCutTotal Hydro.SquashTotalAny Hydro.QuotientAttrs Hydro.ShareCutExamples.
 From CGV Require Hydro.HydroCheck Hydro.SquashCheck.
 From CGV Require Resolve.GraphOps Resolve.CopyProofs Resolve.Bonding.
 Import ListNotations.
@@ -423,6 +423,16 @@ Proof. exact ShareCutExamples.share_vs_cut_resolver_total_hypotheses. Qed.
 Theorem C10_wf_dict_decidable : forall fd, ShareCutTotal.wf_dictb fd = true -> CopyProofs.wf_dict fd.
 Proof. exact ShareCutTotal.wf_dictb_sound. Qed.
 
+(** the compose component's half (Compose/SharedCut.v, cited from Compose/Statements.v; built on BangGraph and
+    C10_squash_quotient): the `!`-written templates of a well-formed cut resolve to the written molecule's skeleton
+    with those texts rewritten; squash_atoms contracts exactly the cut bonds that are `$` pairs with a label in L;
+    whatever it returns is the quotient of the written molecule by the `!`-connected classes *)
+Definition C10_shared_bonding_skeleton := CGV.Compose.Statements.C01_shared_bonding_skeleton.
+Definition C10_bang_items_sound := CGV.Compose.Statements.C01_bang_items_sound.
+Definition C10_bang_items_complete := CGV.Compose.Statements.C01_bang_items_complete.
+Definition C10_shared_cut_quotient := CGV.Compose.Statements.C01_shared_cut_quotient.
+Definition C10_shared_resolve_squash := CGV.Compose.Statements.C01_shared_resolve_squash.
+
 (** one level up (bond creation, Resolve/Bonding.v with the generated [compatible]): a single descriptor pair
     between two coarse nodes makes exactly one bond — u-v for the `$` pair, v'-v for the `!` pair *)
 Theorem C10_single_pair_bond : forall legacy arom A B x y c t o, A <> B -> (c = "$"%char \/ c = "!"%char) ->
@@ -496,5 +506,10 @@ Print Assumptions C10_squash_keeps_attrs.
 Print Assumptions C10_share_vs_cut_resolver_atoms.
 Print Assumptions C10_same_payload_example.
 Print Assumptions C10_share_vs_cut_count.
+Print Assumptions C10_shared_bonding_skeleton.
+Print Assumptions C10_bang_items_sound.
+Print Assumptions C10_bang_items_complete.
+Print Assumptions C10_shared_cut_quotient.
+Print Assumptions C10_shared_resolve_squash.
 Print Assumptions C10_share_vs_cut_resolver_membership.
 Print Assumptions C10_share_vs_cut_resolver_total_hypotheses.
